@@ -265,30 +265,8 @@ def finish_c03(ctx, facts):
                 ctx.ob("C03.4", "%s|fused|%s" % (f.id, short(ty)[:50]), "a framed body reader is wrapped in FusedReader (after its end it must stay at end-of-stream; a chunk decoder would otherwise parse following bytes as a chunk header)",
                        ty.startswith("util::fused_reader::FusedReader<"), f.loc(e["bb"]))
     ctx.floor("C03.4 framed readers", n, 2)
-    fr = method(facts, T_READ, FR, "read")
-    ctx.touch(fr)
-    sw = None
-    for bb in sorted(fr.live_blocks()):
-        s2 = switch_on_discr(fr, bb)
-        if s2 and s2[0].get("adt") == "std::option::Option" and "inner" in origin_fields(fr.origin_place(s2[0]["pl"])):
-            sw = s2
-            break
-    ctx.require(sw is not None, "C03.4: FusedReader::read does not match on inner")
-    rv, m, otherwise, rest = sw
-    nt = m.get("None", otherwise if "None" in rest else None)
-    outs = shared.eval_from(fr, nt)
-    ok = bool(outs) and all(st.read_key((0,))[0] == "agg" and st.read_key((0,))[2] == "Ok" and st.read_key((0,))[3]["0"][1] == 0 for p, st in outs)
-    ctx.ob("C03.4", "%s|empty-stays-eof" % fr.id, "once emptied, the fused reader returns Ok(0) forever", ok, fr.loc(nt))
-    clears = [bb for h, bb, kind, x in facts.field_writes(FR, "inner") if h.id == fr.id and kind == "assign" and not fr.blocks[bb]["cleanup"]]
-    okz = False
-    for bb in sorted(fr.live_blocks()):
-        bs = bool_switch(fr, bb)
-        if bs:
-            o = fr.origin(bs[0])
-            if o[0] == "binop" and o[1] == "Eq" and o[3][0] == "const" and o[3][1] == 0 and any(z[0] == "downcast" for z in origin_walk(o[2])):
-                r_ = fr.reach([bs[1]], blocked=set(clears), unwind=False)
-                okz = bool(clears) and not any(x in r_ for x in fr.returns()) and not (set(clears) & fr.reach([bs[2]], unwind=False))
-    ctx.ob("C03.4", "%s|drops-inner-at-eof" % fr.id, "the inner reader is released exactly when a read returned 0", okz, "%s:%d" % (fr.file, fr.line))
+    import fused_rules
+    fused_rules.fused_rules(ctx, "C03.4", "C03.4", None)
     return {}
 
 
